@@ -67,4 +67,114 @@ theorem addResidue_spec (ws : Array Nat) (rb : Array Int) (y0 x0 stride : Nat) (
 theorem clampByte_spec (v : Int) : (clampByte v : Int) = if v < 0 then 0 else if v > 255 then 255 else v := by
   unfold clampByte; split <;> (try split) <;> omega
 
+
+/-! ### a whole 16x16-predicted macroblock -/
+
+/-- index of sample (r, c) of the macroblock in the 17 x 21 luma workspace -/
+def at16 (r c : Nat) : Nat := (1 + r) * 21 + 1 + c
+
+theorem cell_block (i k : Nat) (_hi : i < 16) (_hk : k < 16) :
+    cell (1 + (i / 4) * 4) (1 + (i % 4) * 4) 21 k = at16 ((i / 4) * 4 + k / 4) ((i % 4) * 4 + k % 4) := by
+  unfold cell at16; omega
+
+theorem at16_inj (r c r' c' : Nat) (hc : c < 16) (hc' : c' < 16) (h : at16 r c = at16 r' c') : r = r' ∧ c = c' := by
+  unfold at16 at h; omega
+
+/-- after the residue of blocks `0 .. n-1` has been added -/
+def After (res : Array Int) (P : Array Nat) (n : Nat) (ws : Array Nat) : Prop :=
+  ws.size = P.size ∧
+  (∀ r c, r < 16 → c < 16 → (r / 4) * 4 + c / 4 < n →
+    ws.getD (at16 r c) 0 = clampByte (res.getD (16 * ((r / 4) * 4 + c / 4) + 4 * (r % 4) + c % 4) 0 + P.getD (at16 r c) 0)) ∧
+  (∀ q, (∀ r c, r < 16 → c < 16 → (r / 4) * 4 + c / 4 < n → at16 r c ≠ q) → ws.getD q 0 = P.getD q 0)
+
+theorem block_getD (res : Array Int) (i k : Nat) (hk : k < 16) (hres : 16 * i + 16 ≤ res.size) :
+    (block res i).getD k 0 = res.getD (16 * i + k) 0 := by
+  unfold block
+  rw [Array.getD_eq_getD_getElem?, Array.getD_eq_getD_getElem?, Array.getElem?_extract]
+  have h1 : k < min (16 * i + 16) res.size - 16 * i := by omega
+  rw [if_pos h1]
+
+theorem after_step (res : Array Int) (P ws : Array Nat) (n : Nat) (hn : n < 16) (hP : P.size = 357) (hres : res.size = 384)
+    (h : After res P n ws) :
+    After res P (n + 1) (addResidue ws (block res n) (1 + (n / 4) * 4) (1 + (n % 4) * 4) 21) := by
+  obtain ⟨hs, hin, hout⟩ := h
+  obtain ⟨a1, a2, a3⟩ := addResidue_spec ws (block res n) (1 + (n / 4) * 4) (1 + (n % 4) * 4) 21 (by omega)
+  refine ⟨a1.trans hs, ?_, ?_⟩
+  · intro r c hr hc hlt
+    by_cases hb : (r / 4) * 4 + c / 4 = n
+    · -- this block
+      have hk : 4 * (r % 4) + c % 4 < 16 := by omega
+      have hcell := cell_block n (4 * (r % 4) + c % 4) hn hk
+      have e1 : n / 4 = r / 4 := by omega
+      have e2 : n % 4 = c / 4 := by omega
+      have x1 : (n / 4) * 4 + (4 * (r % 4) + c % 4) / 4 = r := by omega
+      have x2 : (n % 4) * 4 + (4 * (r % 4) + c % 4) % 4 = c := by omega
+      rw [x1, x2] at hcell
+      have hlt' : cell (1 + (n / 4) * 4) (1 + (n % 4) * 4) 21 (4 * (r % 4) + c % 4) < ws.size := by
+        rw [hcell, hs, hP]; unfold at16; omega
+      have := a2 _ hk hlt'
+      rw [hcell] at this
+      rw [this, block_getD res n _ hk (by omega)]
+      have hprev : ws.getD (at16 r c) 0 = P.getD (at16 r c) 0 := hout _ (fun r' c' hr' hc' hlt' e => by
+        obtain ⟨e1, e2⟩ := at16_inj r' c' r c hc' hc e
+        subst e1 e2; omega)
+      rw [hprev, ← hb, Nat.add_assoc]
+    · have hlt2 : (r / 4) * 4 + c / 4 < n := by omega
+      have hne : ∀ k, k < 16 → cell (1 + (n / 4) * 4) (1 + (n % 4) * 4) 21 k ≠ at16 r c := by
+        intro k hk e
+        rw [cell_block n k hn hk] at e
+        obtain ⟨e1, e2⟩ := at16_inj _ _ r c (by omega) hc e
+        apply hb; subst e1 e2; omega
+      rw [a3 _ hne]
+      exact hin r c hr hc hlt2
+  · intro q hq
+    have hne : ∀ k, k < 16 → cell (1 + (n / 4) * 4) (1 + (n % 4) * 4) 21 k ≠ q := by
+      intro k hk e
+      rw [cell_block n k hn hk] at e
+      exact hq ((n / 4) * 4 + k / 4) ((n % 4) * 4 + k % 4) (by omega) (by omega) (by omega) e
+    rw [a3 _ hne]
+    exact hout q (fun r c hr hc hlt => hq r c hr hc (by omega))
+
+
+theorem after_all (res : Array Int) (P : Array Nat) (hP : P.size = 357) (hres : res.size = 384) :
+    ∀ n, n ≤ 16 → After res P n ((List.range n).foldl (fun ws i => addResidue ws (block res i) (1 + (i / 4) * 4) (1 + (i % 4) * 4) 21) P) := by
+  intro n
+  induction n with
+  | zero => intro _; exact ⟨rfl, fun r c _ _ h => by omega, fun q _ => rfl⟩
+  | succ n ih =>
+    intro hn
+    rw [List.range_succ, List.foldl_append, List.foldl_cons, List.foldl_nil]
+    exact after_step res P _ n (by omega) hP hres (ih (by omega))
+
+theorem predict_size (kind : Nat) (a : Array Nat) (size x0 y0 stride : Nat) (above left : Bool) :
+    (Vp8Pred.predict kind a size x0 y0 stride above left).size = a.size := by
+  unfold Vp8Pred.predict; simp
+
+/-- **a 16x16-predicted macroblock is reconstructed as `clamp(prediction + residue)`**, sample by
+    sample, for every workspace with its border, every 16x16 mode and every residue; the border of
+    the workspace is left as it was -/
+theorem luma16_recon (mbx mby lumaMode : Nat) (hm : lumaMode ≠ 4) (bmodes : Array Nat) (res : Array Int) (ws : Array Nat)
+    (hres : res.size = 384) (hws : ws.size = 357) :
+    let P := match lumaMode with
+      | 1 => Vp8Pred.predict 10 ws 16 1 1 21 true true
+      | 2 => Vp8Pred.predict 11 ws 16 1 1 21 true true
+      | 3 => Vp8Pred.predict 1 ws 16 1 1 21 true true
+      | _ => Vp8Pred.predict 12 ws 16 1 1 21 (mby != 0) (mbx != 0)
+    ∀ r c, r < 16 → c < 16 →
+      (lumaRecon mbx mby lumaMode bmodes res ws).getD (at16 r c) 0 =
+        clampByte (res.getD (16 * ((r / 4) * 4 + c / 4) + 4 * (r % 4) + c % 4) 0 + P.getD (at16 r c) 0) := by
+  intro P r c hr hc
+  have hP : P.size = 357 := by
+    simp only [P]
+    split <;> rw [predict_size] <;> exact hws
+  have h := after_all res P hP hres 16 (by omega)
+  have e : lumaRecon mbx mby lumaMode bmodes res ws =
+      (List.range 16).foldl (fun ws i => addResidue ws (block res i) (1 + (i / 4) * 4) (1 + (i % 4) * 4) 21) P := by
+    unfold lumaRecon
+    rw [if_neg hm]
+    rfl
+  rw [e]
+  exact h.2.1 r c hr hc (by omega)
+
+
 end Vp8IntraProof
